@@ -82,6 +82,13 @@ def setup():
         exp[("alt", k)] = _decompose(None, k)
     _ENV["expected_decompose"] = exp
     _ENV["registry0"] = _registry_snapshot()
+    # warm the primitives in the main thread (no simulated threads before the runner forks)
+    for _ in range(3):
+        with qp.decomposition.local_decomps():
+            qp.add_decomps("SWAP", markers[-1])
+            dr._fix_decomp("CSWAP", markers[-2])
+            qp.list_decomps("SWAP"), dr.get_fixed_decomp("CSWAP"), qp.decomposition.has_decomp("SWAP")
+            _decompose(1, None)
     _ENV["ready"] = True
 
 
